@@ -181,10 +181,13 @@ def bucket(n):
     return ">163"
 
 
-ID_POOL = [1, 5269, 8395913, 64, 512, 16384, 65536, 999999, 1000000, 1000001, 1048576, 1000064, 2 ** 31, 2 ** 32 - 1 - 1000000, 0x000F4240, 0x00F00000]
+ID_POOL = [1, 5269, 8395913, 64, 512, 16384, 65536, 999999, 1000000, 1000001, 1048576, 1000064, 2 ** 31, 2 ** 32 - 1 - 1000000, 0x000F4240, 0x00F00000,
+           2 ** 32 - 1000000, 2 ** 32 - 999999, 2 ** 32 - 2, 2 ** 32 - 1, 2 ** 31 - 1, 2 ** 32 - 1000001]
 
 
 def id_class(i):
+    if i >= 2 ** 32 - 1000000:
+        return "id-plus-marker-wraps-32-bits"
     return "id-overlaps-marker-bits" if (i & 1000000) else "id-disjoint-from-marker-bits"
 
 
@@ -192,6 +195,7 @@ def gs_case(ctx, rng):
     TEMPLATE = os.path.join(REPO, "resources/tests/gearsets/simple.dat")
     sets = {}
     nsets = rng.choice([0, 1, 1, 2, 7, 30, 100])
+    opaque = rng.random() < 0.5
     for pos in rng.sample(range(100), nsets):
         n = rng.choice([1, 5, 10, 45, 46, rng.randint(1, 46)])
         if rng.random() < 0.2:
@@ -201,28 +205,34 @@ def gs_case(ctx, rng):
             name = bytes(rng.choice(b"abcdefghijklmnopqrstuvwxyzABCDEFGHIJ 0123456789'-") for _ in range(n))
         slots = {}
         for s in rng.sample(range(14), rng.choice([0, 1, 2, 5, 14])):
-            iid = rng.choice(ID_POOL) if rng.random() < 0.6 else rng.randrange(1, 2 ** 32 - 1000000)
-            gl = rng.choice([0, 0, 2453, rng.getrandbits(32) or 1])
-            slots[s] = (iid, gl, (0, 0, 0, 0, 0))
-        sets[pos] = dict(index=rng.choice([pos, 0, 255, rng.randrange(256)]), name=name, unk=0, slots=slots,
-                         facewear=rng.choice([0, 0, 12345, rng.getrandbits(32)]))
+            iid = rng.choice(ID_POOL) if rng.random() < 0.6 else rng.randrange(1, 2 ** 32)
+            gl = rng.choice([0, 0, 2453, 2 ** 32 - 1, rng.getrandbits(32) or 1])
+            # the fields after the two ids (dyes etc.) are opaque to the API but belong to a canonical file: an occupied slot carries them
+            unk = tuple(rng.choice([0, 1, 0xFF, rng.getrandbits(32)]) for _ in range(5)) if opaque else (0, 0, 0, 0, 0)
+            slots[s] = (iid, gl, unk)
+        sets[pos] = dict(index=rng.choice([pos, 0, 255, rng.randrange(256)]), name=name, unk=rng.getrandbits(64) if opaque else 0, slots=slots,
+                         facewear=rng.choice([0, 0, 12345, 2 ** 32 - 1, rng.getrandbits(32)]))
     current = rng.randrange(256)
+    hdr_unk = (rng.randrange(256), rng.getrandbits(16)) if opaque else (0, 0)
     exp = norm_sets(sets)
     key = digest(repr(sorted(exp.items())), current)
     idcls = sorted({id_class(v[0]) for s in sets.values() for v in s["slots"].values()})
-    ctx.case(key, nsets >= 1, ["gearsets", "gs-sets:%s" % nsets] + idcls, sample=dict(sets=nsets, example={k: v for k, v in list(exp.items())[:1]}))
+    key = digest(key, opaque and repr(sorted((p, s["unk"], sorted(s["slots"].items())) for p, s in sets.items())), hdr_unk)
+    ctx.case(key, nsets >= 1, ["gearsets", "gs-sets:%s" % nsets, "gs-opaque-fields:%s" % ("nonzero" if opaque else "zero")] + idcls, sample=dict(sets=nsets, example={k: v for k, v in list(exp.items())[:1]}))
     # direction 1: python-built canonical file -> library
-    b = uf.gs_build(sets, current=current)
+    b = uf.gs_build(sets, current=current, unknown1=hdr_unk[0], unknown3=hdr_unk[1])
     f = ctx.write("g.dat", b)
     rec = ctx.call("gearsets.parse", f, input_bytes=len(b))
     ctx.check_mon(rec, len(b), files=[f])
     if rec.ok:
         cmp_gs(ctx, "parse", rec.value["data"], exp, current, [f])
         if rec.value["rewrite_eq"] is not True:
-            ctx.violation("codec", dict(sub="gearsets_rewrite_canonical", ids="+".join(idcls)), {}, files=[f])
+            ctx.violation("codec", dict(sub="gearsets_rewrite_canonical", ids="+".join(idcls), opaque=opaque), {}, files=[f])
     elif rec.outcome == "none":
         ctx.violation("codec", dict(sub="gearsets_parse_failed"), {}, files=[f])
-    # direction 2: library-written -> python decode
+    # direction 2: library-written -> python decode (opaque fields cannot be set through the API: the template's zeros are expected)
+    if opaque:
+        b = uf.gs_build({p: dict(s, unk=0, slots={k: (v[0], v[1], (0, 0, 0, 0, 0)) for k, v in s["slots"].items()}) for p, s in sets.items()}, current=current)
     spec = "current %d\n" % current
     for pos, s in sorted(sets.items()):
         spec += "set %d %d %s %d\n" % (pos, s["index"], s["name"].hex(), s["facewear"])
